@@ -38,11 +38,27 @@ pub fn run(run: &mut Run) {
 fn case<S: Shape>(r: &mut Rng, acc: &mut Acc, index: u64, verbose: bool) {
     let kinds = &S::KINDS[..S::N_ANIM];
     let spec = gen_tl(r, kinds, &GenOpts { neg_delay: true, ..GenOpts::default() });
-    let merged = r.chance(1, 5);
+    // merged: 0 = plain timeline, 1 = the same timeline wrapped in a MergedTimeline, 2 = a merged timeline of
+    // two components with disjoint property sets and independent timing (start_with must reach both)
+    let merged = if S::N_ANIM >= 2 && r.chance(1, 5) { 2 } else if r.chance(1, 5) { 1 } else { 0 };
+    let mut specs = vec![spec];
+    if merged == 2 {
+        let mut other = gen_tl(r, kinds, &GenOpts { neg_delay: true, ..GenOpts::default() });
+        for f in 0..S::N_ANIM {
+            for k in specs[0].kfs.iter_mut() {
+                if f % 2 == 1 { k.vals[f] = None; }
+            }
+            for k in other.kfs.iter_mut() {
+                if f % 2 == 0 { k.vals[f] = None; }
+            }
+        }
+        specs.push(other);
+    }
+    let owner = |f: usize| if merged == 2 { f % 2 } else { 0 };
     let v: Vec<f64> = S::KINDS.iter().map(|k| gen_value(r, *k)).collect();
     let vs = S::from_vals(&v);
-    let (a_one, mut b_one) = (S::build_tl(&spec), S::build_tl(&spec));
-    let (a_m, mut b_m) = (to_merged::<S>(S::build_tl(&spec)), to_merged::<S>(S::build_tl(&spec)));
+    let (a_one, mut b_one) = (S::build_tl(&specs[0]), S::build_tl(&specs[0]));
+    let (a_m, mut b_m) = (build_merged::<S>(&specs), build_merged::<S>(&specs));
     // one third of the cases: an earlier, different start_with first — the latest one must fully win
     let earlier = r.chance(1, 3);
     if earlier {
@@ -54,46 +70,57 @@ fn case<S: Shape>(r: &mut Rng, acc: &mut Acc, index: u64, verbose: bool) {
     b_m.start_with(&vs);
     let eval_a = |t: f32| {
         let mut x = S::default();
-        if merged { a_m.update(&mut x, t) } else { a_one.update(&mut x, t) }
+        if merged > 0 { a_m.update(&mut x, t) } else { a_one.update(&mut x, t) }
         x
     };
     let eval_b = |t: f32| {
         let mut x = S::default();
-        if merged { b_m.update(&mut x, t) } else { b_one.update(&mut x, t) }
+        if merged > 0 { b_m.update(&mut x, t) } else { b_one.update(&mut x, t) }
         x
     };
-    let (c, d) = (spec.cycle, spec.delay);
-    let mut times: Vec<f32> = vec![-1.0, -0.25, 0.0, d * 0.25, d * 0.5, d * 0.75, next_down(d), d];
-    let grid: Vec<f32> = (0..=32).map(|k| k as f32 / 32.0).collect();
-    let ks: Vec<u32> = match spec.repeat {
-        Rep::None | Rep::Times(0) => vec![0],
-        Rep::Times(n) => (0..=n.min(6)).collect(),
-        Rep::Infinite => vec![0, 1, 2, 3, 4, 5, 6, 1 << 10],
-    };
-    for k in ks {
-        for g in &grid {
-            times.push(d + c * (k as f32 + g));
+    let mut times: Vec<f32> = Vec::new();
+    for spec in &specs {
+        let (c, d) = (spec.cycle, spec.delay);
+        times.extend_from_slice(&[-1.0, -0.25, 0.0, -0.0, d * 0.25, d * 0.5, d * 0.75, next_down(d), d]);
+        let grid: Vec<f32> = (0..=32).map(|k| k as f32 / 32.0).collect();
+        let ks: Vec<u32> = match spec.repeat {
+            Rep::None | Rep::Times(0) => vec![0],
+            Rep::Times(n) => (0..=n.min(6)).collect(),
+            Rep::Infinite => vec![0, 1, 2, 3, 4, 5, 6, 1 << 10],
+        };
+        for k in ks {
+            for g in &grid {
+                times.push(d + c * (k as f32 + g));
+            }
+            for _ in 0..4 {
+                times.push(d + c * (k as f32 + (r.below(4096) as f32 / 4096.0)));
+            }
         }
-        for _ in 0..4 {
-            times.push(d + c * (k as f32 + (r.below(4096) as f32 / 4096.0)));
+        if let Some(n) = spec.repeat.cycles() {
+            let total = d + c * n as f32;
+            times.extend_from_slice(&[total, next_up(total), total + 0.5, total * 3.0 + 10.0, 1e8]);
         }
     }
-    if let Some(n) = spec.repeat.cycles() {
-        let total = d + c * n as f32;
-        times.extend_from_slice(&[total, next_up(total), total + 0.5, total * 3.0 + 10.0, 1e8]);
-    }
-    let frs: Vec<_> = (0..S::N_ANIM).map(|f| frames(&spec, f)).collect();
+    let frs: Vec<_> = (0..S::N_ANIM).map(|f| frames(&specs[owner(f)], f)).collect();
     let case = |t: f32, f: usize, clause: &str| {
         case_json(STREAM, index, vec![
-            ("shape", J::s(S::NAME)), ("timeline", spec.json()), ("merged", J::B(merged)),
+            ("shape", J::s(S::NAME)), ("timelines", J::A(specs.iter().map(|s| s.json()).collect())), ("merged_kind", J::U(merged as u64)),
             ("start_with", J::A(v.iter().map(|x| J::F(*x)).collect())), ("t", J::F(t as f64)), ("field", J::s(S::FIELDS[f])), ("clause", J::s(clause)),
         ])
     };
     let mut sampled = false;
     for t in times {
-        let m = mscale_spec(&spec, t as f64);
         let (xa, xb) = (eval_a(t), eval_b(t));
         for f in 0..S::N_ANIM {
+            let spec = &specs[owner(f)];
+            let d = spec.delay;
+            let m = mscale_spec(spec, t as f64);
+            if m.phase == Phase::Active && (t >= 1.0e7 || (m.p as f32) as f64 != m.p || ((t - d) as f64) != t as f64 - d as f64) {
+                // a probe time of the *other* component (its delay - ulp, its end + ulp, ...): outside this
+                // component's exact regime, the implementation's f32 position need not equal the model's
+                acc.count("skipped_inexact_time_for_other_component", 1);
+                continue;
+            }
             let fr = &frs[f];
             if fr.is_empty() {
                 continue;
@@ -116,7 +143,7 @@ fn case<S: Shape>(r: &mut Rng, acc: &mut Acc, index: u64, verbose: bool) {
                 if m.p >= first_next {
                     (same, "unaffected-after-first-keyframe", format!("twin without start_with gives {ga}"))
                 } else {
-                    let e = mprop(&spec, f, m.p, Some(v[f])).unwrap();
+                    let e = mprop(spec, f, m.p, Some(v[f])).unwrap();
                     (agrees(kind, gb, &e), "blend-from-v", format!("model gives {} = lerp({}, {}, {}({}))", e.v, e.a, e.b, e.eas.name(), e.x))
                 }
             } else {
